@@ -47,8 +47,9 @@ type T struct {
 	Kept       int    `json:"kept"`
 	Total      int    `json:"total"`
 	Discovered bool   `json:"discovered"`
-	Healthy    bool   `json:"healthy"`        // the explorer probed it successfully
-	Down       bool   `json:"down,omitempty"` // the target answers 500 from now on (still discovered)
+	Healthy    bool   `json:"healthy"`             // the explorer probed it successfully
+	Down       bool   `json:"down,omitempty"`      // the target answers 500 from now on (still discovered)
+	FailNext   bool   `json:"fail_next,omitempty"` // the next scrape fails once
 	est        *target.ScrapeStatus
 }
 
@@ -66,6 +67,8 @@ type Config struct {
 	BudgetD int    `json:"down_budget"`
 	// DownAsFault: "a target goes down for good" is one of the faults (consumes the fault budget)
 	DownAsFault bool `json:"down_as_fault,omitempty"`
+	// MoreFaults adds "wipe(i)" (shard restarted on an empty volume) and "flaky(h)" (one failing scrape) to the fault menu
+	MoreFaults bool `json:"more_faults,omitempty"`
 	// Inflight enables the event "a coordination cycle runs while shard i's Prometheus is in the middle of a scrape"
 	Inflight bool `json:"inflight,omitempty"`
 	// Later: targets that a workload event may add (discovered=false initially in Targets)
@@ -82,7 +85,7 @@ func (e Event) String() string {
 	switch e.Kind {
 	case "cycle", "expire", "shrink":
 		return e.Kind
-	case "grow", "add", "remove", "down":
+	case "grow", "add", "remove", "down", "flaky":
 		return fmt.Sprintf("%s(%d)", e.Kind, e.H)
 	}
 	return fmt.Sprintf("%s(%d)", e.Kind, e.I)
@@ -147,6 +150,8 @@ type World struct {
 	moving   []map[uint64]bool
 	Ghost    []string // findings of the ghost oracle in the last cycle
 	inflight func()
+	scaling  bool     // applyScale is following a scale request of the coordinator (not an environment fault)
+	Removed  []string // findings: shards removed by the coordinator's request while still in use
 	Last     *CycleObs
 	cyc      *CycleObs
 	Cycles   int
@@ -193,6 +198,10 @@ func New(cfg *Config, base string) *World {
 			return rig.Answer{Status: 404}
 		}
 		if t.Down {
+			return rig.Answer{Status: 500}
+		}
+		if t.FailNext {
+			t.FailNext = false
 			return rig.Answer{Status: 500}
 		}
 		var sb strings.Builder
@@ -370,6 +379,31 @@ func (w *World) applyScale(n int) {
 	}
 	for len(w.shards) > n {
 		last := w.shards[len(w.shards)-1]
+		li := len(w.shards) - 1
+		if w.cyc != nil && w.scaling {
+			for h, c := range w.Assignment(li) {
+				t := w.T[h]
+				if t == nil || !t.Discovered {
+					continue
+				}
+				held := false
+				best := -1
+				for j := 0; j < li; j++ {
+					if _, ok := w.Assignment(j)[h]; ok {
+						held = true
+						if !w.moving[j][h] && w.since[j][h] > best {
+							best = w.since[j][h]
+						}
+					}
+				}
+				switch {
+				case !held:
+					w.Removed = append(w.Removed, fmt.Sprintf("only-copy|the coordinator scaled down shard %d which holds the only copy of target %d (%s)", li, h, orNormal(c.State)))
+				case best < 3:
+					w.Removed = append(w.Removed, fmt.Sprintf("hand-over-unfinished|the coordinator scaled down shard %d while target %d was still being handed over (the other copy completed %d scrapes)", li, h, best))
+				}
+			}
+		}
 		os.RemoveAll(last.dir) // the volume is deleted with the shard
 		w.shards = w.shards[:len(w.shards)-1]
 		w.since = w.since[:len(w.shards)]
@@ -402,4 +436,11 @@ func (w *World) NShards() int { return len(w.shards) }
 func (w *World) inSync(i int) bool {
 	s := w.shards[i]
 	return !s.unready && !s.getFail && !s.outOfSync
+}
+
+func orNormal(s string) string {
+	if s == "" {
+		return "normal"
+	}
+	return s
 }
